@@ -233,6 +233,10 @@ def run(tier, v):
             fe_lines.append({"id": i, "crate": crate + "_par", "frames": l["req"]["frames"], "matcher": crate == "tcp", "cfg": {}, "cap": 1000,
                              "parallel": {"workers": nw, "queue": 4096, "batch": bs, "timeout_ms": 5}})
             meta.append({"seq": l["id"], "crate": crate, "nw": nw, "batch": bs, "front_end": True})
+        # and the sequential front end (analyze_pcap without a pool) against the packet-level functions
+        i = len(meta)
+        fe_lines.append({"id": i, "crate": crate, "frames": l["req"]["frames"], "matcher": crate == "tcp", "cfg": {}, "cap": 1000})
+        meta.append({"seq": l["id"], "crate": crate, "nw": 0, "batch": 0, "front_end": True})
     freq = os.path.join(wd, "fe.req")
     vlib.write_ndjson(freq, fe_lines)
     fout = os.path.join(wd, "fe.out")
